@@ -224,7 +224,57 @@ func init() {
 	reg("T.Empty", []string{"g"}, func(c *Call, a []*item) any { return a[0].g.Empty() })
 	reg("T.Meta", []string{"g"}, func(c *Call, a []*item) any {
 		g := a[0].g
-		return []any{int(g.Layout()), g.Stride(), g.SRID()}
+		out := []any{int(g.Layout()), g.Stride(), g.SRID()}
+		if nc, ok := g.(interface{ NumCoords() int }); ok {
+			n := -1
+			if pn := core.Guard(func() { n = nc.NumCoords() }); pn != "" {
+				out = append(out, "NumCoords panics")
+			} else {
+				out = append(out, n)
+			}
+		}
+		if gc, ok := g.(*geom.GeometryCollection); ok {
+			out = append(out, gc.FlatCoords(), gc.Ends(), gc.Endss())
+		}
+		return out
+	})
+	// the Must variants on objects of the caller's own, fed from shared arguments
+	reg("Must.Variants", []string{"g"}, func(c *Call, a []*item) any {
+		g := a[0].g
+		fresh := geom.NewGeometryCollection().MustPush(g)
+		out := []any{fresh.NumGeoms(), int(fresh.Layout())}
+		if pn := core.Guard(func() { fresh.MustSetLayout(g.Layout()) }); pn != "" {
+			out = append(out, "MustSetLayout panics")
+		}
+		cl := geom.Must(geom.SetSRID(cloneOf(g), 4326+c.I))
+		out = append(out, cl)
+		var own geom.T
+		pn := core.Guard(func() {
+			switch t := g.(type) {
+			case *geom.Point:
+				if !t.Empty() {
+					own = geom.NewPoint(t.Layout()).MustSetCoords(t.Coords())
+				}
+			case *geom.LineString:
+				own = geom.NewLineString(t.Layout()).MustSetCoords(t.Coords())
+			case *geom.LinearRing:
+				own = geom.NewLinearRing(t.Layout()).MustSetCoords(t.Coords())
+			case *geom.Polygon:
+				own = geom.NewPolygon(t.Layout()).MustSetCoords(t.Coords())
+			case *geom.MultiPoint:
+				own = geom.NewMultiPoint(t.Layout()).MustSetCoords(t.Coords())
+			case *geom.MultiLineString:
+				own = geom.NewMultiLineString(t.Layout()).MustSetCoords(t.Coords())
+			case *geom.MultiPolygon:
+				own = geom.NewMultiPolygon(t.Layout()).MustSetCoords(t.Coords())
+			}
+		})
+		if pn != "" {
+			out = append(out, "MustSetCoords panics")
+		} else {
+			out = append(out, own)
+		}
+		return out
 	})
 	reg("T.Length", []string{"g:flat"}, func(c *Call, a []*item) any {
 		return a[0].g.(interface{ Length() float64 }).Length()
@@ -376,7 +426,8 @@ func init() {
 	})
 	reg("xy.RingPredicates", []string{"f", "c"}, func(c *Call, a []*item) any {
 		l, ring, p := a[0].layout, a[0].f, a[1].c
-		return []any{xy.IsPointInRing(l, p, ring), int(xy.LocatePointInRing(l, p, ring)), xy.IsOnLine(l, p, ring), xy.SignedArea(l, ring), xy.DistanceFromPointToLineString(l, p, ring)}
+		loc := xy.LocatePointInRing(l, p, ring)
+		return []any{xy.IsPointInRing(l, p, ring), int(loc), loc.String(), string(loc.Symbol()), xy.IsOnLine(l, p, ring), xy.SignedArea(l, ring), xy.DistanceFromPointToLineString(l, p, ring)}
 	})
 	reg("xy.IsRingCounterClockwise", []string{"f"}, func(c *Call, a []*item) any { return xy.IsRingCounterClockwise(a[0].layout, a[0].f) })
 	reg("xy.Distances", []string{"c", "c", "c", "c"}, func(c *Call, a []*item) any {
@@ -389,7 +440,7 @@ func init() {
 	})
 	reg("xy.AngleScalars", []string{"c", "c"}, func(c *Call, a []*item) any {
 		x, y := a[0].c[0]+float64(c.X), a[1].c[1]
-		return []any{xy.Normalize(x), xy.NormalizePositive(x), xy.Diff(x, y), int(xy.AngleOrientation(x, y)), xy.Normalize(y * 7), xy.NormalizePositive(-y)}
+		return []any{xy.Normalize(x), xy.NormalizePositive(x), xy.Diff(x, y), int(xy.AngleOrientation(x, y)), xy.AngleOrientation(x, y).String(), xy.Normalize(y * 7), xy.NormalizePositive(-y)}
 	})
 	reg("sorting.SortedCopies", []string{"f", "c"}, func(c *Call, a []*item) any {
 		// sorting works in place: every caller sorts a copy of its own; the
@@ -443,7 +494,7 @@ func init() {
 			st = lineintersector.NonRobustLineIntersector{}
 		}
 		r := lineintersector.LineIntersectsLine(st, a[0].c, a[1].c, a[2].c, a[3].c)
-		out := []any{int(r.Type()), r.HasIntersection()}
+		out := []any{int(r.Type()), r.Type().String(), r.HasIntersection()}
 		for _, p := range r.Intersection() {
 			out = append(out, p)
 		}
@@ -716,7 +767,7 @@ func init() {
 		t, err := igc.Read(bytes.NewReader(a[0].b))
 		out := []any{err}
 		if t != nil {
-			out = append(out, geom.T(t.LineString), fmt.Sprint(t.Headers))
+			out = append(out, geom.T(t.LineString), fmt.Sprint(t.Headers), t.HasCoords())
 		}
 		return out
 	})
@@ -729,4 +780,34 @@ func init() {
 		err := igc.NewEncoder(&b, igc.A("XYZ")).Encode(ls)
 		return []any{b.String(), err}
 	})
+}
+
+// cloneOf returns a deep copy of g (collections are rebuilt member by member).
+func cloneOf(g geom.T) geom.T {
+	switch g := g.(type) {
+	case *geom.Point:
+		return g.Clone()
+	case *geom.LineString:
+		return g.Clone()
+	case *geom.LinearRing:
+		return g.Clone()
+	case *geom.Polygon:
+		return g.Clone()
+	case *geom.MultiPoint:
+		return g.Clone()
+	case *geom.MultiLineString:
+		return g.Clone()
+	case *geom.MultiPolygon:
+		return g.Clone()
+	case *geom.GeometryCollection:
+		out := geom.NewGeometryCollection()
+		for _, m := range g.Geoms() {
+			if err := out.Push(cloneOf(m)); err != nil {
+				panic(err)
+			}
+		}
+		out.SetSRID(g.SRID())
+		return out
+	}
+	return nil
 }
